@@ -318,7 +318,7 @@ def r5(ctx, cfg, R="C06.R5"):
                         continue
                     nleaf += 1
                     pres = [c0[2] for e0, c0 in conds if c0[0] == "variant_in" and is_param(c0[1], pname)]
-                    extra = [c0[1] for e0, c0 in conds if c0[0] == "bool" and any(contains(x, lambda y: y[0] == "param" and y[2] == pname) for x in c0[1][1])]
+                    extra = [c0[1] for e0, c0 in conds if c0[0] == "bool" and not q.is_derived(c0) and any(contains(x, lambda y: y[0] == "param" and y[2] == pname) for x in c0[1][1])]
                     if v[1].endswith("Unbounded") and (("None",) not in pres or extra):
                         bad.append("Unbounded chosen under %s %s" % (pres, [(e1[0], e1[2]) for e1 in extra]))
                     if not v[1].endswith("Unbounded") and (("Some",) not in pres or extra):
